@@ -251,11 +251,11 @@ int write_python_table_native(std::ostream &out) {
     }
   }
 
-  // A library also adds its top-level typedefs to the module, whether or not
-  // they are marked global, as another name for the class they stand for.  If
-  // that class comes from a different library, that one has to go first.
-  for (int ti = 0; ti < interrogate_number_of_types(); ti++) {
-    TypeIndex thetype = interrogate_get_type(ti);
+  // A library also adds the typedefs it declares to the module, as another
+  // name for the class they stand for.  If that class comes from a different
+  // library, that one has to go first.
+  for (int ti = 0; ti < interrogate_number_of_global_types(); ti++) {
+    TypeIndex thetype = interrogate_get_global_type(ti);
     if (interrogate_type_is_typedef(thetype) &&
         !interrogate_type_is_nested(thetype) &&
         interrogate_type_has_module_name(thetype) &&
